@@ -526,8 +526,11 @@ def plan(tier, seed, where, exes, harness, quick_exhaustive=QUICK_EXHAUSTIVE):
             mode, args = "dfs", ["--mode", "dfs", "--max", "200000"]
         elif n == 2 and arr != "p":
             fi = cfg.split("/")[1]
-            if tier == "thorough":
-                mode, args = "dfs", ["--mode", "dfs", "--max", "120000" if shared else "1500000"]
+            if tier == "thorough" and shared:
+                # SharedFuture inputs add the shared state's own reference counting to every interleaving: capped
+                mode, args = "dfs-capped", ["--mode", "dfs", "--max", "100000"]
+            elif tier == "thorough":
+                mode, args = "dfs", ["--mode", "dfs", "--max", "1500000"]
             elif fi in quick_exhaustive and arr != "q01":
                 mode, args = "dfs", ["--mode", "dfs", "--max", "300000"]
             else:
